@@ -73,9 +73,9 @@ def _bind(names, pos, kw, defaults=None):
 
 def sbvn_summary(eng, pos, kw):
     a = _bind(["x", "y", "mu_x", "mu_y", "sigma_x", "sigma_y"], pos, kw, {"mu_x": 0.0, "mu_y": 0.0, "sigma_x": 1.0, "sigma_y": 1.0})
-    x, y = a["x"], a["y"]
-    fx, fy = x.snapshot_fn(), y.snapshot_fn()
-    return Arr(x.shape, lambda idx: Phi((fx(idx) - a["mu_x"]) / NP.sqrt(a["sigma_x"])) * Phi((fy(idx) - a["mu_y"]) / NP.sqrt(a["sigma_y"])), dtype="float")
+    from pyvc.arrays import elementwise
+    return elementwise(lambda xv, yv: Phi((xv - a["mu_x"]) / NP.sqrt(a["sigma_x"])) * Phi((yv - a["mu_y"]) / NP.sqrt(a["sigma_y"])),
+                       a["x"], a["y"], dtype="float")
 
 
 _BVN = z3.Function("BVN", *([z3.RealSort()] * 8))
@@ -89,9 +89,9 @@ def bvn_spec(x, y, mx, my, sxx, syy, sxy):
 def bvn_summary(eng, pos, kw):
     a = _bind(["x", "y", "mu_x", "mu_y", "sigma_xx", "sigma_yy", "sigma_xy"], pos, kw,
               {"mu_x": 0.0, "mu_y": 0.0, "sigma_xx": 1.0, "sigma_yy": 1.0, "sigma_xy": 0.0})
-    x, y = a["x"], a["y"]
-    fx, fy = x.snapshot_fn(), y.snapshot_fn()
-    return Arr(x.shape, lambda idx: bvn_spec(fx(idx), fy(idx), a["mu_x"], a["mu_y"], a["sigma_xx"], a["sigma_yy"], a["sigma_xy"]), dtype="float")
+    from pyvc.arrays import elementwise
+    return elementwise(lambda xv, yv: bvn_spec(xv, yv, a["mu_x"], a["mu_y"], a["sigma_xx"], a["sigma_yy"], a["sigma_xy"]),
+                       a["x"], a["y"], dtype="float")
 
 
 def gaussian_contract(mode):
